@@ -1863,6 +1863,13 @@ func checkC16(w *World, r *Recorder) propInfo {
 	r.Floor("C16-N1", 2)
 	r.Floor("C16-N2", 1)
 	r.Floor("C16-N3", 3)
+	// N8: instances stay independent through their setters too: no setter puts
+	// mutable package-level memory into the object it is called on
+	ruleSettersStoreOwnedMemory(w, r, "C16-N8")
+	r.Floor("C16-N8", 20)
+	// N9: dispatch is a function of the register and the token alone
+	ruleDispatchKeepsNoState(w, r, "C16-N9")
+	r.Floor("C16-N9", 3)
 	r.Floor("C16-N4", 1)
 	return info
 }
